@@ -75,18 +75,7 @@ def signature(c, impl, v):
         if _optlist_under_list(t) or (not tg.get('innermost') and _optlist_anywhere(t)):
             return 'sort-option-lists-above-axis'
     lay = c.layouts[0]
-    if lay.startswith('(par string') or lay.startswith('(par bytestring'):
-        import re
-        m = re.match(r'\(par \w+ none \((lo|la|reg) (\S+) (\([^)]*\)|\S+) (\([^)]*\)|\S+)', lay)
-        if m:
-            kind = m.group(1)
-            n = None
-            if kind == 'lo':
-                n = len(m.group(3).strip('()').split()) - 1
-            elif kind == 'la':
-                n = len(m.group(3).strip('()').split())
-            elif kind == 'reg':
-                n = int(m.group(4)) if m.group(4).lstrip('-').isdigit() else None
-            if n == 0:
-                return 'sort-empty-string-array'
+    if (lay.startswith('(par string') or lay.startswith('(par bytestring')) and \
+            impl in ('ok (par char none (np uint8 (0) ()))', 'ok (par byte none (np uint8 (0) ()))'):
+        return 'sort-empty-string-array'
     return None
